@@ -197,6 +197,11 @@ def check(pid, tier, seed):
     single.append({"name": "readconfig-nofile-opt", "call": "read", "init": "object",
                    "script": twice(["newopt 1 %s" % hx("ROOT_PREFIX=" + R + "/empty"), "readconfig 1 %s %s %s %s x3d x23" % (hx("p"), hx("/usr/lib"), hx("c"), hx("conf")), "free 1"])})
     single.append({"name": "readconfig-nullargs", "call": "read", "init": "null", "script": twice(["readconfig 1 - - - - x3d x23", "free 1"])})
+    # single files by every form of RELATIVE name (bare name, ./name, sub/name, ../name, a name that does not exist)
+    relnames = ["bare.conf", "./bare.conf", "sub/in.conf", "sub/../bare.conf", "./sub/./in.conf", "missing.conf", "sub/missing.conf"]
+    single.append({"name": "readfile-relative-names", "call": "free", "init": "null", "ops": ("none",),
+                   "script": ["file %s %s" % (hx(R + "/rel/bare.conf"), hx("a=1\n")), "file %s %s" % (hx(R + "/rel/sub/in.conf"), hx("b=2\n")), "chdir %s" % hx(R + "/rel")] +
+                             twice([x for nm in relnames for x in ("readfile 1 %s x3d x23" % hx(nm), "path 1", "free 1")]) + ["chdir /"]})
     # drop-ins only (no configuration name: <project>.d) through option objects whose own drop-in directory list has 0 / 1 / 2 / 3
     # entries, with and without files to find, and the same handle used again after a read that found nothing
     dr = R + "/dropsonly"
@@ -265,7 +270,7 @@ def check(pid, tier, seed):
         nvg = valgrind_sample(cases, rnd, verdict)
     rc = verdict.finish()
     cov = {"evaluations": len(scen) + len(single), "distinct_nontrivial": nn + sum(1 for s in single if s["init"] == "object" or s["name"].startswith("newopt")),
-           "rule": "fault enumeration: %d layered-read scenarios = trees (3 layers via econf_readConfigWithCallback with an option-initialised key_file; 2 layers via econf_readDirsWithCallback, econf_readDirsHistoryWithCallback, econf_readConfigWithCallback+PARSING_DIRS) x {no fault} + for EACH consulted file in turn {callback rejection, foreign owner under econf_requireOwner, file mode or directory mode refused under econf_requirePermissions, malformed line, drop-in that is a symbolic link to nowhere} and main files that are symbolic links to nowhere in each layer; + %d single calls on failing paths (missing / malformed file, rejected single file, unknown and repeated option items, no file with NULL- and option-initialised key_file, drop-ins-only reads through option objects with 0..3 own drop-in directories incl. a handle used again after a read that found nothing, NULL arguments, merge with NULL, free(NULL)) %d random conventional files of the plain / JOIN_SAME_ENTRIES / PYTHON_STYLE grammars (15 %% with a malformed line) read through an option object, listed in full and released, and %d random API histories of 5..60 calls. Every scenario runs twice in one process; ASan's live-byte count around the second run must not move after the caller released all valid handles (Trace_Lifecycle: heap_delta = 0, out-pointer in OutPtrAllowed, free functions return NULL; Trace_Layers: return code, callbacks, content). ASan aborts on double free / use after free. valgrind memcheck sample: %d. non-trivial = fault at a position >= 2 or an option-initialised key_file." % (
+           "rule": "fault enumeration: %d layered-read scenarios = trees (3 layers via econf_readConfigWithCallback with an option-initialised key_file; 2 layers via econf_readDirsWithCallback, econf_readDirsHistoryWithCallback, econf_readConfigWithCallback+PARSING_DIRS) x {no fault} + for EACH consulted file in turn {callback rejection, foreign owner under econf_requireOwner, file mode or directory mode refused under econf_requirePermissions, malformed line, drop-in that is a symbolic link to nowhere} and main files that are symbolic links to nowhere in each layer; + %d single calls on failing paths (missing / malformed file, single files by every form of relative name, rejected single file, unknown and repeated option items, no file with NULL- and option-initialised key_file, drop-ins-only reads through option objects with 0..3 own drop-in directories incl. a handle used again after a read that found nothing, NULL arguments, merge with NULL, free(NULL)) %d random conventional files of the plain / JOIN_SAME_ENTRIES / PYTHON_STYLE grammars (15 %% with a malformed line) read through an option object, listed in full and released, and %d random API histories of 5..60 calls. Every scenario runs twice in one process; ASan's live-byte count around the second run must not move after the caller released all valid handles (Trace_Lifecycle: heap_delta = 0, out-pointer in OutPtrAllowed, free functions return NULL; Trace_Layers: return code, callbacks, content). ASan aborts on double free / use after free. valgrind memcheck sample: %d. non-trivial = fault at a position >= 2 or an option-initialised key_file." % (
                len(scen), len(single) - nh - nf, nf, nh, nvg),
            "samples": lev[:2] + lev[-1:], "exhaustive": False, "model_states": mc.distinct, "traces_validated_against_impl": len(lev) - len(mism),
            "trusted_base": ["gcc ASan allocator accounting (__sanitizer_get_current_allocated_bytes)", "TLC 1.8.0", "drv.c", "valgrind memcheck (thorough)"]}
